@@ -260,48 +260,76 @@ const (
 	B2XsUnknown = 1<<16 - 1 // (BLAKE2Xs)
 )
 
-// Blake2Xb returns the first n output bytes of BLAKE2Xb with declared XOF
-// length xofLen (B2XbUnknown for unknown length).  For a known length n
-// must be <= xofLen.
-func Blake2Xb(xofLen uint32, key, msg []byte, n int) []byte {
-	root := Seq(64, key)
-	root.NodeOffset = uint64(xofLen) << 32
-	h0 := Blake2b(root, msg)
-	if xofLen != B2XbUnknown && n > int(xofLen) {
-		panic("refhashes: reading past the declared XOF length")
+// B2XStream produces BLAKE2X output lazily, node by node.
+type B2XStream struct {
+	s       bool   // BLAKE2Xs (32-byte nodes) instead of BLAKE2Xb
+	xofLen  uint32 // declared length as stored in the parameter block
+	unknown bool
+	h0      []byte
+	buf     []byte
+	node    uint32
+}
+
+// NewB2XStream starts a BLAKE2Xb (s=false) or BLAKE2Xs (s=true) output
+// stream for the declared XOF length (B2XbUnknown / B2XsUnknown = unknown).
+func NewB2XStream(s bool, xofLen uint32, key, msg []byte) *B2XStream {
+	x := &B2XStream{s: s, xofLen: xofLen}
+	if s {
+		root := Seq(32, key)
+		root.NodeOffset = uint64(xofLen) << 32
+		x.h0 = Blake2s(root, msg)
+		x.unknown = xofLen == B2XsUnknown
+	} else {
+		root := Seq(64, key)
+		root.NodeOffset = uint64(xofLen) << 32
+		x.h0 = Blake2b(root, msg)
+		x.unknown = xofLen == B2XbUnknown
 	}
-	out := make([]byte, 0, n+64)
-	for i := 0; len(out) < n; i++ {
-		j := 64
-		if xofLen != B2XbUnknown {
-			if rest := int(xofLen) - 64*i; rest < 64 {
+	return x
+}
+
+// Total is the number of bytes the XOF may produce (-1: unbounded here).
+func (x *B2XStream) Total() int {
+	if x.unknown {
+		return -1
+	}
+	return int(x.xofLen)
+}
+
+// Upto returns the first min(n, Total) output bytes.
+func (x *B2XStream) Upto(n int) []byte {
+	ns := 64
+	if x.s {
+		ns = 32
+	}
+	if !x.unknown && n > int(x.xofLen) {
+		n = int(x.xofLen)
+	}
+	for len(x.buf) < n {
+		j := ns
+		if !x.unknown {
+			if rest := int(x.xofLen) - len(x.buf); rest < ns {
 				j = rest
 			}
 		}
-		node := B2Params{DigestLen: j, Fanout: 0, Depth: 0, LeafLen: 64, NodeOffset: uint64(uint32(i)) | uint64(xofLen)<<32, NodeDepth: 0, InnerLen: 64}
-		out = append(out, Blake2b(node, h0)...)
+		p := B2Params{DigestLen: j, Fanout: 0, Depth: 0, LeafLen: uint32(ns), NodeOffset: uint64(x.node) | uint64(x.xofLen)<<32, NodeDepth: 0, InnerLen: byte(ns)}
+		if x.s {
+			x.buf = append(x.buf, Blake2s(p, x.h0)...)
+		} else {
+			x.buf = append(x.buf, Blake2b(p, x.h0)...)
+		}
+		x.node++
 	}
-	return out[:n]
+	return x.buf[:n]
+}
+
+// Blake2Xb returns the first n output bytes of BLAKE2Xb with declared XOF
+// length xofLen (B2XbUnknown for unknown length); at most xofLen bytes.
+func Blake2Xb(xofLen uint32, key, msg []byte, n int) []byte {
+	return append([]byte{}, NewB2XStream(false, xofLen, key, msg).Upto(n)...)
 }
 
 // Blake2Xs is the BLAKE2s-based XOF (32-byte nodes, 16-bit XOF length).
 func Blake2Xs(xofLen uint16, key, msg []byte, n int) []byte {
-	root := Seq(32, key)
-	root.NodeOffset = uint64(xofLen) << 32
-	h0 := Blake2s(root, msg)
-	if xofLen != B2XsUnknown && n > int(xofLen) {
-		panic("refhashes: reading past the declared XOF length")
-	}
-	out := make([]byte, 0, n+32)
-	for i := 0; len(out) < n; i++ {
-		j := 32
-		if xofLen != B2XsUnknown {
-			if rest := int(xofLen) - 32*i; rest < 32 {
-				j = rest
-			}
-		}
-		node := B2Params{DigestLen: j, Fanout: 0, Depth: 0, LeafLen: 32, NodeOffset: uint64(uint32(i)) | uint64(xofLen)<<32, NodeDepth: 0, InnerLen: 32}
-		out = append(out, Blake2s(node, h0)...)
-	}
-	return out[:n]
+	return append([]byte{}, NewB2XStream(true, uint32(xofLen), key, msg).Upto(n)...)
 }
